@@ -4,6 +4,7 @@
 (*   "D" ASCII digit   "N" other Unicode decimal digit   "S" space   "W" tab / newline / CR            *)
 (*   "B" no-break space   "P" '.'   "C" ':'   "L" letter   "O" other printable                          *)
 (*   "U" the letter u / U (the Croatian "at" that RE_SANITIZE_CROATIAN removes after a dotted date)      *)
+(*   "G" the Cyrillic letter ge (the Russian year mark that RE_SANITIZE_RUSSIAN removes: "2015 g.")      *)
 (* One operator per regex step, in code order.  `AsciiOnlyDigits` = TRUE is the pinned design, whose     *)
 (* period rule uses [^0-9\s]; FALSE is the repaired rule [^\d\s].                                       *)
 EXTENDS Naturals, Sequences
@@ -13,13 +14,23 @@ CONSTANT AsciiOnlyDigits
 \* followed by whitespace (and no leading whitespace) is still followed by whitespace when RE_TRIM_COLONS looks at the end.
 \* FALSE: the repaired rule ^\s*(\S.*?)\s*$ - either end alone is trimmed.
 CONSTANT TrimNeedsBothEnds
-Classes == {"D", "N", "S", "W", "B", "P", "C", "L", "O", "U"}
+Classes == {"D", "N", "S", "W", "B", "P", "C", "L", "O", "U", "G"}
 IsWs(c) == c \in {"S", "W", "B"}          \* Python's \s matches NBSP too
 IsDigit(c) == c \in {"D", "N"}            \* \d with re.UNICODE
 
 \* RE_SANITIZE_SKIP: tab / newline / CR -> space
 Subst(s, from, to) == [i \in 1..Len(s) |-> IF s[i] = from THEN to ELSE s[i]]
 SkipStep(s) == Subst(s, "W", "S")
+
+\* RE_SANITIZE_RUSSIAN: ([\W\d])g\.  ->  \1 and one space: the year mark after a non-word character or a digit (not the last
+\* letter of a word).  Non-overlapping, left to right: the character that licenses a match is consumed by it.
+NonWordOrDigit(c) == c \in {"S", "W", "B", "P", "C", "O", "D", "N"}
+RECURSIVE RussianFrom(_, _)
+RussianFrom(s, i) == IF i > Len(s) THEN <<>>
+                     ELSE IF i + 2 <= Len(s) /\ NonWordOrDigit(s[i]) /\ s[i + 1] = "G" /\ s[i + 2] = "P"
+                            THEN <<s[i], "S">> \o RussianFrom(s, i + 3)
+                            ELSE <<s[i]>> \o RussianFrom(s, i + 1)
+RussianStep(s) == RussianFrom(s, 1)
 
 \* RE_SANITIZE_CROATIAN: (\d+)\.\s*(\d+)\.\s*(\d+)\.(\s+u)?  ->  \1.\2.\3 followed by one space.  It runs BEFORE the whitespace is
 \* normalised, so what it accepts between its parts is part of the design: CroatStrict = TRUE is the pinned pattern
@@ -94,7 +105,7 @@ RECURSIVE RStrip(_)
 RStrip(s) == IF s # <<>> /\ IsWs(s[Len(s)]) THEN RStrip(SubSeq(s, 1, Len(s) - 1)) ELSE s
 StripStep(s) == LStrip(RStrip(s))
 
-San(s) == StripStep(ColonStep(PeriodStep(SpacesStep(CroatStep(SkipStep(s))))))
+San(s) == StripStep(ColonStep(PeriodStep(SpacesStep(CroatStep(RussianStep(SkipStep(s)))))))
 
 \* numeral translation (locale.py:154-159) happens later: other decimal digits become ASCII digits
 Num(s) == Subst(s, "N", "D")
